@@ -464,6 +464,10 @@ func CopyDir(src, dst string) error {
 		if info.IsDir() {
 			return os.MkdirAll(target, 0o755)
 		}
+		if info.Size() > 32<<20 {
+			// memory-database temp buffers (sparse mmap files) are volatile state, not part of an image
+			return nil
+		}
 		b, err := os.ReadFile(p)
 		if err != nil {
 			if os.IsNotExist(err) {
